@@ -140,6 +140,15 @@ func genMetrics(rng *rand.Rand, o *afmOpts, maxGlyphs int) *afm.Metrics {
 	m.UnderlinePosition = num(-300, 0)
 	m.UnderlineThickness = num(0, 200)
 	m.ItalicAngle = float64(rng.IntN(9001)-4500) / 100
+	switch rng.IntN(6) {
+	case 0:
+		// any finite angle, with all the digits a float64 has
+		m.ItalicAngle = (rng.Float64() - 0.5) * 90
+		o.f("italic angle with 17 significant digits")
+	case 1:
+		m.ItalicAngle = []float64{-9.399993896484375, -12.3456789, 11.25000001, 16777217, -33554433, 1e-7, 0.1 + 0.2, 123456789.125}[rng.IntN(8)]
+		o.f("italic angle beyond single precision")
+	}
 	m.IsFixedPitch = rng.IntN(2) == 0
 	nk := rng.IntN(6)
 	if rng.IntN(10) == 0 {
